@@ -91,7 +91,11 @@ def run(ctx: Ctx, extended: bool = False) -> None:
                 break
             actions.append(np.asarray(a).tolist())
             s, ts = s2, ts2
-        a = jnp.asarray(sample_action(env, rng))
+        # prefer an action the mask allows (a rejected action often leaves the state untouched and would hide in-place writes)
+        from props.c11 import masked_action
+
+        ma = masked_action(env, ts, rng) if rng.random() < 0.8 else None
+        a = jnp.asarray(ma if ma is not None else sample_action(env, rng))
         info.update({"prefix_actions": actions, "action": np.asarray(a).tolist()})
         ref_reset = jreset(key)
         ref_step = jstep(s, a)
@@ -130,6 +134,19 @@ def run(ctx: Ctx, extended: bool = False) -> None:
                 changed = [k for k in before if before[k] != after.get(k)] + [k for k in after if k not in before]
                 ctx.fail(e.cid, "argument_mutated", f"env.step modified its state argument in place (fields {changed})", {**info, "fields": changed},
                          {"cls": e.cls, "fields": ",".join(sorted(changed))})
+            # in-contract but unusual input: a state whose leaves are writable host NumPy arrays (restored checkpoint, np.load, tree_map(np.array, s)):
+            # NumPy implements in-place operators, so `x *= 2` inside step/observation code would write into the caller's buffer
+            s_np = jax.tree_util.tree_map(lambda x: np.array(x), s)
+            a_np = np.array(a)
+            snap_np = snapshot(s_np)
+            eg_np = _eager(lambda: env.step(s_np, a_np))
+            if eg_np is not None:
+                record("eager-numpy-state:step", eg_np, ref_step)
+                if snapshot(s_np) != snap_np:
+                    ctx.fail(e.cid, "argument_mutated", "env.step wrote into the NumPy arrays of its state argument", {**info, "variant": "eager-numpy-state"}, {"cls": e.cls})
+                eg_np2 = _eager(lambda: env.step(s_np, a_np))
+                if eg_np2 is not None:
+                    record("eager-numpy-state:repeat", eg_np2, ref_step)
             # results must not change after the fact: a value returned earlier stays what it was when later calls are made on the same object
             # (eager execution can hand out the same mutable container twice, e.g. a generator that returns a stored instance)
             if e.cls not in ("Maze", "Cleaner"):
